@@ -39,7 +39,9 @@ Definition pcase_ok_in (v : variant) (pc : pcase) : bool :=
       | _ => false
       end
   end.
-Definition pcase_ok := pcase_ok_in impl_now.
+(* The four repairs are committed in /repo (fix: commits 00196036, 9baec878, 0db3ce65, e5434427): the code
+   under test is the variant impl_fixed; impl_now documents the pre-repair behaviour. *)
+Definition pcase_ok := pcase_ok_in impl_fixed.
 Definition pcase_id (pc : pcase) : N := match pc with PC i _ _ _ | PCSet i _ _ _ _ => i end.
 
 Definition pmismatches (cs : list pcase) : list N :=
